@@ -87,6 +87,16 @@ def check_names(vals):
         nb2 = Name(bytes=bytearray(R.name_bytes(v)))
         if nb2.value != exp:
             return n, ("name-from-bytes", "Name(bytes=bytearray(..)) value 0x%016X expected 0x%016X" % (nb2.value, exp))
+        # the same through the public setters of an existing object
+        ns = Name()
+        ns.value = v
+        if ns.value != exp or list(ns.bytes) != eb or int(ns.reserved_bit) != 0:
+            return n, ("name-value-setter", "n = Name(); n.value = 0x%016X gives value 0x%016X bytes %r reserved_bit %r, expected 0x%016X "
+                       "(reserved bit reading as 0)" % (v, ns.value, list(ns.bytes), ns.reserved_bit, exp))
+        ns2 = Name()
+        ns2.bytes = R.name_bytes(v)
+        if ns2.value != exp or list(ns2.bytes) != eb:
+            return n, ("name-bytes-setter", "n = Name(); n.bytes = %r gives value 0x%016X, expected 0x%016X" % (R.name_bytes(v), ns2.value, exp))
         nf = Name(**{k: ef[k] for k in FIELD_KW})
         if nf.value != exp or list(nf.bytes) != eb:
             return n, ("name-from-fields", "Name(**%r).value == 0x%016X, expected 0x%016X" % ({k: ef[k] for k in FIELD_KW}, nf.value, exp))
